@@ -113,3 +113,133 @@ Proof.
     change (rprim "truncate_array@_values") with (map KV [KTrunc; KDescr; KReadme]).
     rewrite Hq, map_app. reflexivity.
 Qed.
+
+(* ---------- RaggedArray._update_lens, _append, iterappend ---------- *)
+
+Definition lens_kinds : list kind := [KV KDescr; KV KReadme; KI KDescr; KI KReadme; KRDescr; KRReadme].
+
+Lemma update_lens_kinds : forall h d vinc iinc h' es,
+  update_lens h d vinc iinc = Ok (h', es) -> map rkind_of es = lens_kinds.
+Proof.
+  unfold update_lens; intros h d vinc iinc h' es H.
+  destruct (update_len (rh_v h) (r_values d) vinc) as [[hv ev]|] eqn:Hv; [|discriminate].
+  destruct (update_len (rh_i h) (r_indices d) iinc) as [[hi ei]|] eqn:Hi; [|discriminate].
+  match type of H with (match ?t with _ => _ end) = _ => destruct t as [f|] end; [|discriminate].
+  inversion H; subst. rewrite !map_app, !map_map.
+  change (map (fun x => rkind_of (RV x)) ev) with (map (fun x => KV (kind_of x)) ev).
+  change (map (fun x => rkind_of (RI x)) ei) with (map (fun x => KI (kind_of x)) ei).
+  rewrite <- (map_map kind_of KV), <- (map_map kind_of KI).
+  rewrite (update_len_kinds _ _ _ _ _ Hv), (update_len_kinds _ _ _ _ _ Hi). reflexivity.
+Qed.
+
+Lemma sk_ragged_update_lens_ok : rruns sk_ragged_update_lens Normal lens_kinds.
+Proof.
+  unfold sk_ragged_update_lens, lens_kinds.
+  apply (R_seq _ _ _ _ [KV KDescr; KV KReadme] Normal [KI KDescr; KI KReadme; KRDescr; KRReadme]);
+    [apply (R_prim rprim rsub "_update_len@_values"); reflexivity|].
+  apply (R_seq _ _ _ _ [KI KDescr; KI KReadme] Normal [KRDescr; KRReadme]);
+    [apply (R_prim rprim rsub "_update_len@_indices"); reflexivity|].
+  apply (R_seq _ _ _ _ [KRDescr] Normal [KRReadme]);
+    [apply (R_prim rprim rsub "_update_arraydescr"); reflexivity
+    |apply (R_prim rprim rsub "_update_readmetxt"); reflexivity].
+Qed.
+
+Lemma call_update_lens_ok : rruns (Call "_update_lens") Normal lens_kinds.
+Proof.
+  apply (R_sub rprim rsub "_update_lens" sk_ragged_update_lens Normal lens_kinds);
+    [reflexivity | apply sk_ragged_update_lens_ok].
+Qed.
+
+Theorem update_lens_runs : forall h d vinc iinc h' es,
+  update_lens h d vinc iinc = Ok (h', es) -> rruns sk_ragged_update_lens Normal (map rkind_of es).
+Proof.
+  intros h d vinc iinc h' es H. rewrite (update_lens_kinds _ _ _ _ _ _ H). apply sk_ragged_update_lens_ok.
+Qed.
+
+Lemma call_append_v : rruns (Call "_append@_values") Normal [KV KAppend].
+Proof. apply (R_prim rprim rsub "_append@_values"); reflexivity. Qed.
+
+Lemma rappend_one_call : forall h it vlen es r,
+  rappend_one h it vlen = (es, r) ->
+  rruns (Call "_append") (match r with Some _ => Normal | None => Raised end) (map rkind_of es).
+Proof.
+  unfold rappend_one; intros h it vlen es r H.
+  assert (Full : rruns (Call "_append") Normal [KV KAppend; KI KAppend]).
+  { apply (R_sub rprim rsub "_append" sk_ragged_append Returned); [reflexivity|]. unfold sk_ragged_append.
+    apply (R_seq _ _ _ _ [KV KAppend] Returned [KI KAppend]); [apply call_append_v|].
+    apply (R_seq _ _ _ _ [KI KAppend] Returned []);
+      [apply (R_prim rprim rsub "_append@_indices"); reflexivity | apply R_return]. }
+  assert (Vonly : rruns (Call "_append") Raised [KV KAppend]).
+  { apply (R_sub rprim rsub "_append" sk_ragged_append Raised); [reflexivity|]. unfold sk_ragged_append.
+    apply R_seq_stop; [discriminate|].
+    apply (R_prim_fail rprim rsub "_append@_values" [KV KAppend] []); reflexivity. }
+  assert (Both : rruns (Call "_append") Raised [KV KAppend; KI KAppend]).
+  { apply (R_sub rprim rsub "_append" sk_ragged_append Raised); [reflexivity|]. unfold sk_ragged_append.
+    apply (R_seq _ _ _ _ [KV KAppend] Raised [KI KAppend]); [apply call_append_v|].
+    apply R_seq_stop; [discriminate|].
+    apply (R_prim_fail rprim rsub "_append@_indices" [KI KAppend] []); reflexivity. }
+  destruct it as [tail rows| | |tail rows k|tail rows k];
+    try (inversion H; subst; apply R_any_raise);
+    destruct (tails_eqb tail (tl (h_shape (rh_v h)))); try (inversion H; subst; apply R_any_raise).
+  - match type of H with (if ?c then _ else _) = _ => destruct c end; inversion H; subst;
+      [exact Full | exact Vonly].
+  - inversion H; subst. exact Vonly.
+  - match type of H with (if ?c then _ else _) = _ => destruct c end; inversion H; subst;
+      [exact Both | exact Vonly].
+Qed.
+
+Lemma rloop_runs : forall its h vlen vinc iinc es v' i' failed,
+  rappend_loop h its vlen vinc iinc = (es, v', i', failed) ->
+  rruns (For (Call "_append")) (if failed then Raised else Normal) (map rkind_of es).
+Proof.
+  induction its as [|it its IH]; intros h vlen vinc iinc es v' i' failed H; cbn [rappend_loop] in H.
+  - inversion H; subst. apply R_for_0.
+  - destruct (rappend_one h it (vlen + vinc)%Z) as [e1 [n|]] eqn:Ha.
+    + destruct (rappend_loop h its vlen (vinc + n)%Z (iinc + 1)%Z) as [[[es' v''] i''] f'] eqn:Hl.
+      inversion H; subst. rewrite map_app.
+      apply R_for_s; [exact (rappend_one_call _ _ _ _ _ Ha) | exact (IH _ _ _ _ _ _ _ _ Hl)].
+    + inversion H; subst. apply R_for_stop; [discriminate | exact (rappend_one_call _ _ _ _ _ Ha)].
+Qed.
+
+Definition ria_handler : sk :=
+  Seq (Seq (Call "truncate@_values") (Call "truncate@_indices")) (Seq (Call "_update_lens") Raise).
+
+Lemma sk_ragged_iterappend_shape :
+  sk_ragged_iterappend =
+  Seq (If Raise Skip) (Seq (Try (For (Call "_append")) ria_handler) (Call "_update_lens")).
+Proof. reflexivity. Qed.
+
+Lemma cut_both : rruns (Seq (Call "truncate@_values") (Call "truncate@_indices")) Normal [KV KTrunc; KI KTrunc].
+Proof.
+  apply (R_seq _ _ _ _ [KV KTrunc] Normal [KI KTrunc]);
+    [apply (R_prim rprim rsub "truncate@_values"); reflexivity
+    |apply (R_prim rprim rsub "truncate@_indices"); reflexivity].
+Qed.
+
+Theorem riterappend_runs : forall h d its r h' es,
+  riterappend h d its = (r, h', es) ->
+  exists o, oc_match r o /\ rruns sk_ragged_iterappend o (map rkind_of es).
+Proof.
+  unfold riterappend; intros h d its r h' es H.
+  destruct (rh_mode h); [rraised_nil H|].
+  match type of H with context [rappend_loop ?a ?b ?c ?d0 ?e] =>
+    destruct (rappend_loop a b c d0 e) as [[[es0 vinc] iinc] failed] eqn:Hl end.
+  apply rloop_runs in Hl. rewrite sk_ragged_iterappend_shape.
+  match type of H with (match ?u with _ => _ end) = _ => destruct u as [[h1 ues]|e] eqn:Hu end.
+  - apply update_lens_kinds in Hu. destruct failed; inversion H; subst.
+    + exists Raised; split; [exact eq_refl|]. rewrite map_app. cbn [app map rkind_of kind_of]. rewrite Hu.
+      apply (R_seq _ _ _ _ [] Raised); [apply R_if_e, R_skip|].
+      apply R_seq_stop; [discriminate|]. apply R_try_h; [exact Hl|]. unfold ria_handler.
+      apply (R_seq _ _ _ _ [KV KTrunc; KI KTrunc] Raised lens_kinds); [apply cut_both|].
+      apply (rruns_eq _ _ (lens_kinds ++ [])); [|apply app_nil_r].
+      apply R_seq; [apply call_update_lens_ok | apply R_any_raise].
+    + exists Normal; split; [left; exact eq_refl|]. rewrite map_app. cbn [app map]. rewrite Hu.
+      apply (R_seq _ _ _ _ [] Normal); [apply R_if_e, R_skip|].
+      apply R_seq; [apply R_try_ok; [discriminate | exact Hl] | apply call_update_lens_ok].
+  - inversion H; subst. exists Raised; split; [exact eq_refl|]. rewrite map_app.
+    apply (R_seq _ _ _ _ [] Raised); [apply R_if_e, R_skip|]. destruct failed; cbn [map rkind_of kind_of].
+    + apply R_seq_stop; [discriminate|]. apply R_try_h; [exact Hl|]. unfold ria_handler.
+      apply (rruns_eq _ _ ([KV KTrunc; KI KTrunc] ++ [])); [|reflexivity].
+      apply R_seq; [apply cut_both | apply R_any_raise].
+    + apply R_seq; [apply R_try_ok; [discriminate | exact Hl] | apply R_any_raise].
+Qed.
